@@ -62,7 +62,7 @@ func raceOracle(cfg *vh.Config, res *vh.Result, rounds int, caseBase int) (int, 
 	start, calls := 0, 0
 	for attempt := 0; start < rounds && attempt < 20; attempt++ {
 		cmd := exec.Command(bin, "-seed", fmt.Sprint(cfg.Seed), "-start", fmt.Sprint(start), "-rounds", fmt.Sprint(rounds))
-		cmd.Env = append(os.Environ(), "GORACE=halt_on_error=0 history_size=2")
+		cmd.Env = append(os.Environ(), "GORACE=halt_on_error=1 history_size=2")
 		var stderr bytes.Buffer
 		cmd.Stderr = &stderr
 		stdout, err := cmd.StdoutPipe()
@@ -109,9 +109,12 @@ func raceOracle(cfg *vh.Config, res *vh.Result, rounds int, caseBase int) (int, 
 		se := stderr.String()
 		in := map[string]any{"seed": cfg.Seed, "round": last, "how": "harness/cmd/run_conc/worker -seed S -start ROUND -rounds ROUND+1 (built with -race)"}
 		if strings.Contains(se, "WARNING: DATA RACE") {
+			// halt_on_error=1: the worker stops at the first report, in round [last]
 			res.Count("race:data-race-report")
 			res.Fail(vh.Failure{Case: caseBase + last, Stream: "goroutines", Sig: "C10 concurrent first use: race detector report",
 				Clause: "concurrent calls complete without data races", Input: in, Got: firstReport(se)})
+			start = last + 1
+			continue
 		}
 		switch {
 		case ended:
